@@ -471,7 +471,7 @@ func (p *partition) newSubscribeLoop(ctx context.Context, groupID, consumerID st
 		p.increaseSubscriberCount()
 		defer p.decreaseSubscriberCount()
 		if groupID != "" {
-			defer p.removeGroupSubscriber(groupID, consumerID)
+			defer p.removeGroupSubscriber(groupID, cancel)
 		}
 
 		headersBuf := make([]byte, 28)
@@ -567,14 +567,18 @@ func (p *partition) newSubscribeLoop(ctx context.Context, groupID, consumerID st
 	}
 }
 
-func (p *partition) removeGroupSubscriber(groupID, consumerID string) {
+// removeGroupSubscriber removes the group's subscriber if it still is the
+// subscription identified by the given cancel channel. A subscription that was
+// replaced must not remove its successor, which may well belong to the same
+// consumer id (a consumer that re-subscribes).
+func (p *partition) removeGroupSubscriber(groupID string, cancel <-chan struct{}) {
 	p.consumersMu.Lock()
 	defer p.consumersMu.Unlock()
 	sub, ok := p.consumers[groupID]
 	if !ok {
 		return
 	}
-	if sub.consumerID == consumerID {
+	if (<-chan struct{})(sub.sub.closed) == cancel {
 		delete(p.consumers, groupID)
 	}
 }
